@@ -27,7 +27,9 @@ pub open spec fn rebuilt(ts: Seq<VTok>, key_len: nat, ind: nat, iel: bool, mll: 
         let t2 = strip_lead(ts, true);
         // a multi-line value begins on the next line when that is asked for - and always when it begins with a comment:
         // every comment stays on a line of its own (on the field's line it would read as value text)
-        let first_on_own_line = (iel && has_nl_spec(ts)) || (t2.len() > 0 && t2[0].0 == COMMENT);
+        // ... and never when it begins with value text that starts with '#': on a continuation line that would read as a comment
+        let hash_first = t2.len() > 0 && t2[0].0 == VALUE && t2[0].1@.len() > 0 && t2[0].1@[0] == '#';
+        let first_on_own_line = (iel && has_nl_spec(ts) && !hash_first) || (t2.len() > 0 && t2[0].0 == COMMENT);
         (if first_on_own_line { seq!['\n'] } else { seq![' '] }) + body(t2, first_on_own_line, ind)
             + (if ends_nl(t2, first_on_own_line) { Seq::<char>::empty() } else { seq!['\n'] })
     }
